@@ -1,0 +1,16 @@
+//go:build verif
+
+package peering
+
+import (
+	"github.com/mycoria/mycoria/state"
+)
+
+// VerifLinkEncryption returns the link layer encryption session of a link
+// that was set up by this package (nil for other Link implementations).
+func VerifLinkEncryption(l Link) *state.EncryptionSession {
+	if lb, ok := l.(*LinkBase); ok {
+		return lb.encSession
+	}
+	return nil
+}
